@@ -65,10 +65,13 @@ def _getattr_dyn(ex, st, v, name, k, where):
 
 def _own_list(ex, st, obj_t, tok):
     """ownership instance (ASSUMED for the containers handed to the functions under contract, established for the
-    containers they build): a list held in an attribute of a container is an allocated object younger than the container"""
+    containers they build): a list held in an attribute of a container is an allocated object younger than the container.
+    (While the function has not written the store, what it reads existed at entry: older than everything it allocates.)"""
     from pyvc.smt import Implies, And, Lt
     ex.decls.fun("tok_isinst", [INT, INT], BOOL)
-    return Implies(app("tok_isinst", BOOL, tok, ex.class_id("list")), And(Lt(obj_t, tok), Lt(tok, st.alloc)))
+    untouched = st.heap.get("$open.val") is ex.initial_heap.get("$open.val") and ex.entry_state is not None
+    bound = ex.entry_state.alloc if untouched else st.alloc
+    return Implies(app("tok_isinst", BOOL, tok, ex.class_id("list")), And(Lt(obj_t, tok), Lt(tok, bound)))
 
 
 @R.specfn("own_attr")
@@ -309,6 +312,9 @@ R.contract("Avp.value#tok", trusted=True, params={"self": "Avp"}, returns="Any",
 R.contracts["assign_attr_from_defs#escape"].call_overrides = {
     "assign_attr_from_defs": R.contracts["assign_attr_from_defs#escape"],      # the recursion uses this contract itself
     "Avp.value": R.contracts["Avp.value#tok"]}
+R.loops[("assign_attr_from_defs", 0)].assume_iter_stable = (
+    "the AVP list handed to assign_attr_from_defs is not one of the container's own attribute lists: it is the message's or "
+    "the grouped AVP's decoded member list")
 R.assume("C03: ownership - a list held in an attribute of an attribute container is younger than the container (true for "
          "containers built by their dataclass constructor and for everything the decoder builds; a caller that stores an "
          "older, shared list into a container is outside the contract)")
